@@ -1,5 +1,395 @@
 package ptracker
 
-import "github.com/metal-toolbox/audito-maldito/internal/verif/mc"
+import (
+	"encoding/json"
+	"fmt"
+	"os"
+	"os/exec"
+	"sort"
+	"strings"
+	"sync"
+	"time"
 
-func runConc(run *mc.Run) int { return 2 }
+	"github.com/metal-toolbox/audito-maldito/internal/verif/mc"
+	"github.com/metal-toolbox/audito-maldito/internal/verif/sched"
+)
+
+// A concurrent program over the tracker: a sequential prefix, 2-3 threads of
+// API calls (the production callers: the Read loop delivering logins and
+// cleanup, the parseAuditLogs goroutine and the maintainReassemblerLoop
+// goroutine delivering audit events) and a sequential probe suffix that makes
+// "both halves left waiting" visible as missing output.
+type cprog struct {
+	Name    string
+	Sess    []SessDef
+	Logins  []LoginDef
+	Prefix  []Op
+	Threads [][]Op
+	Suffix  []Op
+	Bound   int // -1: all interleavings (with visited-state pruning); else max preemptions
+}
+
+// Cleanup ops inside programs use Cut=-1: the instant recorded after the
+// prefix (production's cut-off is a minute in the past: it can only hit halves
+// that were already waiting, never those delivered concurrently).
+
+type cinst struct {
+	w    *World
+	errs [][]string
+	mu   sync.Mutex
+}
+
+func (p *cprog) setup() *cinst {
+	w := NewWorld(p.Sess, p.Logins)
+	for _, o := range p.Prefix {
+		if err := w.Apply(o); err != nil {
+			panic(fmt.Sprintf("prefix op %s failed: %v", o, err))
+		}
+	}
+	w.cut = w.now()
+	w.now()
+	used := map[int]bool{}
+	for _, o := range p.Prefix {
+		if o.K == "L" {
+			used[o.I] = true
+		}
+	}
+	for i := range p.Logins {
+		if !used[i] {
+			w.mkLogin(i)
+		}
+	}
+	w.concMode = true
+	in := &cinst{w: w, errs: make([][]string, len(p.Threads))}
+	return in
+}
+
+func (in *cinst) runOps(t int, ops []Op) {
+	for _, o := range ops {
+		err := in.w.applyConc(o)
+		s := ""
+		if err != nil {
+			s = err.Error()
+		}
+		if t >= 0 {
+			in.errs[t] = append(in.errs[t], s)
+		} else if err != nil {
+			in.mu.Lock()
+			in.errs[0] = append(in.errs[0], "suffix:"+s)
+			in.mu.Unlock()
+		}
+	}
+}
+
+// observe renders the outcome judged by the oracle: per session the emitted
+// (event, identity) sequence, plus every error an operation returned.
+func (p *cprog) observe(in *cinst) string {
+	idname := map[string]string{}
+	for i := range p.Logins {
+		idname[in.w.Ident(i)] = fmt.Sprintf("L%d", i)
+	}
+	per := map[string][]string{}
+	for _, e := range in.w.Rec.From(0) {
+		n, ok := idname[e.Identity]
+		if !ok {
+			n = "?" + e.Identity
+		}
+		if e.Type == "BAD" {
+			per["BAD"] = append(per["BAD"], e.Raw)
+			continue
+		}
+		per[e.Sess] = append(per[e.Sess], e.Label+"/"+n)
+	}
+	var keys []string
+	for k := range per {
+		keys = append(keys, k)
+	}
+	sort.Strings(keys)
+	var b strings.Builder
+	for _, k := range keys {
+		fmt.Fprintf(&b, "ses %s: %s\n", k, strings.Join(per[k], " "))
+	}
+	for t, es := range in.errs {
+		for i, e := range es {
+			if e != "" {
+				fmt.Fprintf(&b, "err T%d op%d: %s\n", t, i, e)
+			}
+		}
+	}
+	return b.String()
+}
+
+// sequentialOutcomes runs every merge of the threads' programs (each API call
+// atomic, program order kept) on the real tracker, with every Iterate order.
+func (p *cprog) sequentialOutcomes() (map[string]string, int) {
+	out := map[string]string{}
+	n := 0
+	pos := make([]int, len(p.Threads))
+	var order []int
+	var rec func()
+	rec = func() {
+		done := true
+		for t := range p.Threads {
+			if pos[t] < len(p.Threads[t]) {
+				done = false
+				pos[t]++
+				order = append(order, t)
+				rec()
+				order = order[:len(order)-1]
+				pos[t]--
+			}
+		}
+		if !done {
+			return
+		}
+		// run this order with every choice vector
+		var perms func(pre []int)
+		perms = func(pre []int) {
+			in := p.setup()
+			ch := &chooser{pre: pre}
+			setChooser(in.w, ch)
+			idx := make([]int, len(p.Threads))
+			for _, t := range order {
+				in.runOps(t, p.Threads[t][idx[t]:idx[t]+1])
+				idx[t]++
+			}
+			in.runOps(-1, p.Suffix)
+			setChooser(in.w, nil)
+			o := p.observe(in)
+			in.w.Close()
+			n++
+			if _, ok := out[o]; !ok {
+				out[o] = fmt.Sprint(order)
+			}
+			for i := len(pre); i < len(ch.sizes); i++ {
+				for alt := 1; alt < ch.sizes[i]; alt++ {
+					perms(append(append([]int{}, ch.taken[:i]...), alt))
+				}
+			}
+		}
+		perms(nil)
+	}
+	rec()
+	return out, n
+}
+
+func (p *cprog) program() *sched.Program {
+	sp := &sched.Program{Name: p.Name}
+	sp.Setup = func() any { return p.setup() }
+	for t := range p.Threads {
+		t := t
+		sp.Threads = append(sp.Threads, func(inst any) { inst.(*cinst).runOps(t, p.Threads[t]) })
+	}
+	sp.Finish = func(inst any) string {
+		in := inst.(*cinst)
+		in.runOps(-1, p.Suffix)
+		o := p.observe(in)
+		in.w.Close()
+		return o
+	}
+	sp.Shared = func(inst any) string {
+		in := inst.(*cinst)
+		return in.w.Key() + "\n" + strings.Join(in.w.Rec.Writes, "")
+	}
+	return sp
+}
+
+func concPrograms(thorough bool) []*cprog {
+	ev3 := []SessDef{
+		{ID: "1", PID: "101", Events: full4},
+		{ID: "2", PID: "102", Events: full4},
+	}
+	l2 := []LoginDef{{PID: 101}, {PID: 102}}
+	A := func(s, e int) Op { return Op{K: "A", I: s, J: e} }
+	L := func(i int) Op { return Op{K: "L", I: i} }
+	CU, CR := Op{K: "CU", Cut: -1}, Op{K: "CR", Cut: -1}
+	probe1 := []Op{A(0, 3), A(0, 2)}                   // EV(s1), DISP(s1)
+	probe2 := []Op{A(0, 3), A(0, 2), A(1, 3), A(1, 2)} // + same for s2
+	ps := []*cprog{
+		{Name: "P1 login || LOGIN+EV", Sess: ev3, Logins: l2, Bound: -1,
+			Threads: [][]Op{{L(0)}, {A(0, 0), A(0, 1)}}, Suffix: probe1},
+		{Name: "P3 cleanup;login || LOGIN+EV", Sess: ev3, Logins: l2, Bound: -1,
+			Threads: [][]Op{{CU, CR, L(0)}, {A(0, 0), A(0, 1)}}, Suffix: probe1},
+		{Name: "P5 login || EV;DISP || EV (session open)", Sess: ev3, Logins: l2, Bound: -1,
+			Prefix: []Op{A(0, 0)}, Threads: [][]Op{{L(0)}, {A(0, 1), A(0, 2)}, {A(0, 3)}}, Suffix: []Op{A(0, 3)}},
+		{Name: "P6 cleanup of a stale waiting login || LOGIN+EV", Sess: ev3, Logins: l2, Bound: -1,
+			Prefix: []Op{L(0)}, Threads: [][]Op{{CU, CR}, {A(0, 0), A(0, 1)}}, Suffix: probe1},
+		{Name: "P7 cleanup of a stale waiting session || login || EV", Sess: ev3, Logins: l2, Bound: -1,
+			Prefix: []Op{A(0, 0)}, Threads: [][]Op{{CU, CR}, {L(0)}, {A(0, 1)}}, Suffix: probe1},
+	}
+	big := []*cprog{
+		{Name: "P2 login || LOGIN+EV || LOGIN+EV of another session", Sess: ev3, Logins: l2, Bound: -1,
+			Threads: [][]Op{{L(0)}, {A(0, 0), A(0, 1)}, {A(1, 0), A(1, 1)}}, Suffix: probe2},
+		{Name: "P4 two logins || LOGIN || LOGIN", Sess: ev3, Logins: l2, Bound: -1,
+			Threads: [][]Op{{L(0), L(1)}, {A(0, 0)}, {A(1, 0)}}, Suffix: probe2},
+		{Name: "P8 login;cleanup;login || LOGIN+EV || LOGIN+EV", Sess: ev3, Logins: l2, Bound: -1,
+			Threads: [][]Op{{L(0), CU, CR, L(1)}, {A(0, 0), A(0, 1)}, {A(1, 0), A(1, 1)}}, Suffix: probe2},
+	}
+	if thorough {
+		return append(ps, big...)
+	}
+	// quick: the two 3-thread programs with a preemption bound
+	q := *big[0]
+	q.Bound = 2
+	return append(ps, &q)
+}
+
+var full4 = configs("C01", false)[0].Sess[0].Events
+
+type concReplay struct {
+	Program string `json:"program"`
+	Choices []int  `json:"choices"`
+}
+
+func runConc(run *mc.Run) int {
+	if os.Getenv("VERIF_RACE_CHILD") != "" {
+		return racePass()
+	}
+	progs := concPrograms(run.Thorough())
+	if run.Replay != "" {
+		var rp concReplay
+		if _, err := mc.LoadReplay(run.Replay, &rp); err != nil {
+			fmt.Println("cannot load replay:", err)
+			return 2
+		}
+		for _, p := range concPrograms(true) {
+			if p.Name == rp.Program {
+				schedChoose = func(n int) int { return sched.Choose(n, "iter") }
+				x := sched.Replay(p.program(), rp.Choices)
+				allowed, _ := p.sequentialOutcomes2()
+				fmt.Printf("outcome:\n%s", x.Outcome)
+				if _, ok := allowed[x.Outcome]; !ok {
+					run.Violation("C03:"+strings.Fields(p.Name)[0]+":not-sequential", rp, "outcome equals no sequential order:\n"+x.Outcome)
+					return 1
+				}
+				return 0
+			}
+		}
+		return 2
+	}
+	cov := mc.Coverage{Level: "model_checking", Exhaustive: true, Extra: map[string]any{}}
+	cov.Rule = "stateless DFS over every interleaving (scheduling points = every real Lock acquisition of the shimmed sync package, thread start/end; every Iterate order) of small concurrent programs on the real sessionTracker; unbounded preemptions with visited-state pruning unless a bound is listed; oracle: outcome (per-session emitted sequence with identities + returned errors, after a probe suffix) must equal the outcome of some sequential merge of the same calls on the real tracker; deadlock = no enabled thread. distinct_nontrivial = complete executions with >=1 preemption"
+	var per []map[string]any
+	for _, p := range progs {
+		schedChoose = nil
+		allowed, nseq := p.sequentialOutcomes2()
+		schedChoose = func(n int) int { return sched.Choose(n, "iter") }
+		sp := p.program()
+		// determinism self-check: one schedule twice
+		a, b := sched.Replay(sp, nil), sched.Replay(sp, nil)
+		if a.Outcome != b.Outcome || fmt.Sprint(a.Choices) != fmt.Sprint(b.Choices) {
+			fmt.Println("harness self-check failed: replaying one schedule twice gave different observations")
+			return 2
+		}
+		budget := 400000
+		if run.Thorough() {
+			budget = 6000000
+		}
+		st := sched.Explore(sp, p.Bound, budget, func(x *sched.Exec) bool { return !run.Expired() })
+		schedChoose = nil
+		if st.Aborted || run.Expired() {
+			cov.Exhaustive = false
+		}
+		var bad []string
+		for o, choices := range st.Outcomes {
+			if _, ok := allowed[o]; ok {
+				continue
+			}
+			bad = append(bad, o)
+			class := "not-sequential"
+			if strings.HasPrefix(o, "DEADLOCK") {
+				class = "deadlock"
+			} else if strings.Contains(o, "PANIC") {
+				class = "panic"
+			}
+			var alw []string
+			for k := range allowed {
+				alw = append(alw, k)
+			}
+			sort.Strings(alw)
+			run.Violation("C03:"+strings.Fields(p.Name)[0]+":"+class, concReplay{p.Name, choices},
+				fmt.Sprintf("program %s, schedule %v (%d executions end like this)\noutcome:\n%sequals no sequential order; sequential outcomes are:\n%s",
+					p.Name, choices, st.OutcomeN[o], o, strings.Join(alw, "--\n")))
+		}
+		cov.States += st.States
+		cov.Transitions += st.Points
+		cov.Traces += st.Executions
+		cov.Evaluations += st.Executions
+		cov.Distinct += st.Preempted
+		per = append(per, map[string]any{"program": p.Name, "threads": len(p.Threads), "preemption_bound": p.Bound,
+			"executions": st.Executions, "complete": st.Complete, "pruned_by_visited_state": st.Pruned, "states": st.States,
+			"max_points": st.MaxPoints, "distinct_outcomes": len(st.Outcomes), "sequential_reference_runs": nseq,
+			"sequential_outcomes": len(allowed), "budget_hit": st.Aborted, "outcomes_not_sequential": len(bad)})
+		fmt.Printf("%s: executions=%d complete=%d pruned=%d states=%d maxpoints=%d outcomes=%d (sequential: %d) bad=%d aborted=%v\n",
+			p.Name, st.Executions, st.Complete, st.Pruned, st.States, st.MaxPoints, len(st.Outcomes), len(allowed), len(bad), st.Aborted)
+		if len(cov.Samples) < 4 {
+			for o, c := range st.Outcomes {
+				cov.Samples = append(cov.Samples, map[string]any{"program": p.Name, "schedule": c, "outcome": o})
+				break
+			}
+		}
+	}
+	cov.Extra["programs"] = per
+	// free-running race pass in a separate binary
+	if bin := os.Getenv("VERIF_RACE_BIN"); bin != "" {
+		cmd := exec.Command(bin, "-test.timeout", "0")
+		cmd.Env = append(os.Environ(), "VERIF_RACE_CHILD=1", "GORACE=halt_on_error=0 exitcode=66")
+		out, err := cmd.CombinedOutput()
+		races := strings.Count(string(out), "WARNING: DATA RACE")
+		cov.Extra["race_pass"] = map[string]any{"ran": true, "data_race_reports": races, "tail": tail(string(out), 3)}
+		if races > 0 || err != nil {
+			rp := map[string]any{"race_output": tail(string(out), 60)}
+			run.Violation("C03:race", rp, "the free-running -race pass over the same thread bodies reported:\n"+tail(string(out), 40))
+		}
+	} else {
+		cov.Extra["race_pass"] = map[string]any{"ran": false}
+		cov.Exhaustive = false
+		run.Note("race binary missing: unsynchronised accesses not checked in this run")
+	}
+	cov.Assumptions = []string{"interleavings are explored at lock-acquisition granularity; accesses outside locks are covered only by the separate free-running -race pass (sampling of schedules, used only to detect unsynchronised accesses)",
+		"programs bounded to 2-3 threads of 1-4 calls"}
+	return run.Finish(cov)
+}
+
+func (p *cprog) sequentialOutcomes2() (map[string]string, int) { return p.sequentialOutcomes() }
+
+func tail(s string, n int) string {
+	ls := strings.Split(strings.TrimRight(s, "\n"), "\n")
+	if len(ls) > n {
+		ls = ls[len(ls)-n:]
+	}
+	return strings.Join(ls, "\n")
+}
+
+// racePass runs the same thread bodies as free goroutines under -race.
+func racePass() int {
+	iters := 300
+	if os.Getenv("VERIF_TIER") == "thorough" {
+		iters = 3000
+	}
+	n := 0
+	deadline := time.Now().Add(60 * time.Second)
+	for _, p := range concPrograms(true) {
+		for i := 0; i < iters && time.Now().Before(deadline); i++ {
+			in := p.setup()
+			var wg sync.WaitGroup
+			start := make(chan struct{})
+			for t := range p.Threads {
+				wg.Add(1)
+				go func(t int) {
+					defer wg.Done()
+					<-start
+					in.runOps(t, p.Threads[t])
+				}(t)
+			}
+			close(start)
+			wg.Wait()
+			in.runOps(-1, p.Suffix)
+			in.w.Close()
+			n++
+		}
+	}
+	b, _ := json.Marshal(map[string]any{"free_running_executions": n})
+	fmt.Println(string(b))
+	return 0
+}
